@@ -135,7 +135,7 @@ def run(ctx):
     ctx.build_vh()
     drift = 0
     if prop == "C01":
-        tags_lex = ["A", "NAME", "DATE", "_X", "1A", "INDI", "FAM", "HUSB", "SEX"]
+        tags_lex = ["A", "NAME", "DATE", "_X", "1A", "INDI", "FAM", "HUSB", "SEX", "Note", "date"]
         vals_lex = ["", "x", "@P@", "1", "NAME", "0 A", "a  b"]
         jobs = [
             ("MC_Build_shape", mc_build("MC_Build_shape", ["A", "NAME"], ["", "x"], [""], 4 if quick else 5, 4, False)),
